@@ -203,6 +203,9 @@ func runC01(c *report.Ctx) {
 	// ---- relevance filter totality (shared with C16/C19) --------------------------------
 	ruleClassGate(c)
 
+	ruleUnspentValueProvenance(c)
+	ruleNoSwallowedErrorInUpdate(c, 13)
+
 	// ---- schema (shared with C09) -------------------------------------------------
 	ruleSchema(c, []string{"nsUnspent", "nsCredits", "nsDebits", "nsMinedBalance", "nsTxRecords", "nsBlocks", "nsUnmined", "nsUnminedInputs", "nsUnminedCredits", "nsAddresses", "nsGameHistory", "nsUnminedGameHistory"}, 40, 20)
 }
@@ -635,4 +638,110 @@ func ruleClassGate(c *report.Ctx) {
 		}
 	}
 	_ = n
+}
+
+// ruleUnspentValueProvenance: the value of an unspent row names the block of its credit. Its only
+// valid sources are the block being connected (a *BlockMeta parameter of the caller chain) and the
+// credit key (which embeds height and hash); a partially decoded record is not one.
+func ruleUnspentValueProvenance(c *report.Ctx) {
+	p := c.P
+	c.Rule("unspent-value-provenance", "the block stored in an unspent row comes from the block being connected or is cut out of the credit key — never from a record whose block field was not decoded", 2)
+	put := fn(c, pkgTxmgr, "", "putUnspent")
+	putRaw := fn(c, pkgTxmgr, "", "putRawUnspent")
+	fromKey := fn(c, pkgTxmgr, "", "fetchNsUnspentValueFromRawCredit")
+	readKey := fn(c, pkgTxmgr, "", "readRawCreditKey")
+	if put == nil || putRaw == nil || fromKey == nil {
+		return
+	}
+	for _, f := range p.ModFuncs {
+		if pk := an.FuncPkg(f); pk == nil || pk.Path() != pkgTxmgr {
+			continue
+		}
+		for i, s := range calls(f, put) {
+			key := siteKey(f, "putUnspent(block)", i+1)
+			arg := an.CallOf(s).Args[3]
+			if par, ok := arg.(*ssa.Parameter); ok && par.Parent() == f {
+				c.OK(key, "block is the caller's *BlockMeta parameter (the block being connected)", posOf(c, s))
+				continue
+			}
+			// a field of a record: acceptable only when the record's key was decoded into it before
+			ok := false
+			if u, isU := arg.(*ssa.UnOp); isU && readKey != nil {
+				if fa, isFA := u.X.(*ssa.FieldAddr); isFA {
+					for _, rk := range calls(f, readKey) {
+						if an.CallOf(rk).Args[1] == fa.X && instrDominates(rk, s) {
+							ok = true
+						}
+					}
+				}
+			}
+			if ok {
+				c.OK(key, "block decoded from the credit key (readRawCreditKey) before use", posOf(c, s))
+			} else {
+				c.Fail(key, "the unspent row is written with a block taken from "+p.Desc(arg)+", which is neither the block being connected nor decoded from the credit key: the restored coin points at block {0, zero hash}, disappears from the coin list and wedges the follower when it is spent again", posOf(c, s))
+			}
+		}
+		for i, s := range calls(f, putRaw) {
+			key := siteKey(f, "putRawUnspent(value)", i+1)
+			v := an.CallOf(s).Args[2]
+			if ex, ok := v.(*ssa.Extract); ok {
+				v = ex.Tuple
+			}
+			if call, ok := v.(*ssa.Call); ok && call.Call.StaticCallee() == fromKey {
+				c.OK(key, "value cut out of the credit key", posOf(c, s))
+			} else {
+				c.Fail(key, "the raw unspent value is not derived from the credit key", posOf(c, s))
+			}
+		}
+	}
+}
+
+// ruleNoSwallowedErrorInUpdate: inside the closure of an Update, the error edge of a call never
+// reaches a `return nil`: the transaction would commit a partially applied step as if it had succeeded.
+func ruleNoSwallowedErrorInUpdate(c *report.Ctx, floor int) {
+	p := c.P
+	c.Rule("no-swallowed-error-in-update", "in an Update closure no success return is reachable from the error edge of a call made in that closure (a swallowed error commits a partial step and lets in-memory state advance)", floor)
+	_, _, us, _ := updateSites(c)
+	for _, s := range us {
+		cl := s.Closure
+		if cl == nil || cl.Blocks == nil {
+			continue
+		}
+		bad := false
+		for _, b := range cl.Blocks {
+			for _, in := range b.Instrs {
+				call, ok := in.(*ssa.Call)
+				if !ok {
+					continue
+				}
+				// error edges of this call
+				succ := map[*ssa.BasicBlock]bool{}
+				for _, sb := range p.SuccessBlocks(call) {
+					succ[sb] = true
+				}
+				if len(succ) == 0 {
+					continue
+				}
+				for sb := range succ {
+					ifb := sb.Preds[0]
+					for _, eb := range ifb.Succs {
+						if succ[eb] {
+							continue
+						}
+						srch := &an.Search{P: p, Fn: cl, GoalReturn: func(r *ssa.Return, pred *ssa.BasicBlock) bool {
+							return p.ClassifyReturn(r, pred) == an.RetSuccess
+						}, CutEdge: func(from, to *ssa.BasicBlock) bool { return to == ifb }}
+						// the error edge itself may carry the nil-ness of the error: start inside eb coming from ifb
+						if w := srch.Run(eb, 0, ifb); w != nil {
+							bad = true
+							c.Fail(sk(cl)+":error-of:"+calleeName(p, call)+"=>return-nil", "the closure of this write transaction returns nil on a path where "+calleeName(p, call)+" failed: the transaction commits, and code after Update treats the step as applied (e.g. the in-memory tip advances to a block that was not applied)", p.InstrPos(call), w...)
+						}
+					}
+				}
+			}
+		}
+		if !bad {
+			c.OK(sk(cl), "no success return reachable from an error edge", posOf(c, s.Site))
+		}
+	}
 }
